@@ -44,7 +44,7 @@ ASSUMPTIONS = [
     "by_min intervals: replicates divided by the smallest reported group value or by the smallest group value of the same resample are both accepted",
     "by_min with a NaN group value is left open; row order is not asserted, only the label set and the value per label",
 ]
-PROBES = ["multi_column", "underscore_in_values", "bootstrap_on", "by_overall", "by_min", "identity_sampler", "recording_builtin",
+PROBES = ["interrupt_fired", "sampler_raise_fired", "multi_column", "underscore_in_values", "bootstrap_on", "by_overall", "by_min", "identity_sampler", "recording_builtin",
           "builtin_string", "group_absent_in_resample", "nan_entry", "divisor_zero", "ci_checked", "single_group", "scalar_threshold",
           "non_default_pos_label", "bca", "bc", "quantile"]
 
@@ -109,7 +109,12 @@ def generate(rnd, tier):
             op["cfg"] = {"nb_samples": rnd.randint(2, 60), "bootstrap_method": rnd.choice(["quantile", "bc", "bca", "bca"])}
             if rnd.random() < 0.1:
                 op["default_config"] = True  # the library's own default (bca, dynamic, 1000 samples) is too slow: keep method only
-            if not fault_free and sampler.get("callable") != "identity" and rnd.random() < 0.5:
+            if not fault_free and rnd.random() < 0.12:
+                if sampler.get("callable") and rnd.random() < 0.5:
+                    op["faults"] = [{"kind": "sampler_raise", "call": rnd.randint(0, op["cfg"]["nb_samples"])}]
+                else:
+                    op["faults"] = [{"kind": "interrupt", "at_line": int(10 ** rnd.uniform(0.3, 4.0)), "exc": rnd.choice(["SimInterrupt", "MemoryError"])}]
+            elif not fault_free and sampler.get("callable") != "identity" and rnd.random() < 0.5:
                 fl = []
                 for _ in range(rnd.choice([1, 1, 2])):
                     f = {"kind": rnd.choice(c11.DRAW_FAULTS[:13])}
@@ -193,12 +198,21 @@ def normalise(vals, denom):
     return out
 
 
+class CallbackFault(Exception):
+    pass
+
+
 class RecSampler:
-    def __init__(self, kind, inner):
+    def __init__(self, kind, inner, raise_at=None):
         self.kind, self.inner = kind, inner
         self.inputs, self.outputs = [], []
+        self.raise_at, self.raised = raise_at, False
 
     def __call__(self, source, **kw):
+        if self.raise_at is not None and len(self.inputs) == self.raise_at:
+            self.raised = True
+            self.inputs.append(source)
+            raise CallbackFault(f"planned failure of sampler call {self.raise_at}")
         self.inputs.append(source)
         out = source if self.kind == "identity" else source.bootstrap_sample(self.inner)
         self.outputs.append(out)
@@ -284,7 +298,8 @@ def execute(scn, ctx):
             probe({"identity": "identity_sampler", "recording": "recording_builtin", "builtin": "builtin_string"}[s_kind])
             if s_kind != "builtin":
                 inner = M.build_config(dict(sspec.get("inner", {}), nb_samples=1)) if s_kind == "recording" else None
-                sampler = RecSampler(s_kind, inner)
+                ra = next((f["call"] for f in (op.get("faults") or []) if f["kind"] == "sampler_raise"), None)
+                sampler = RecSampler(s_kind, inner, raise_at=ra)
                 config = M.build_config(dict(cfg, sampling_method={"callable": s_kind}), sampler=sampler)
             else:
                 config = M.build_config(dict(sspec, **cfg))
@@ -295,6 +310,13 @@ def execute(scn, ctx):
         n_draws += res["draws"]
         fired = [kd for _, kd in res["fired"]]
         n_forced += sum(1 for kd in fired if kd != "interference")
+        if res["interrupted"]:
+            fired.append("interrupt")
+            probe("interrupt_fired")
+        if sampler is not None and sampler.raised:
+            fired.append("sampler_raise")
+            probe("sampler_raise_fired")
+        control_fault = res["interrupted"] or (sampler is not None and sampler.raised)
         for kd in fired:
             faults[kd] = faults.get(kd, 0) + 1
 
@@ -317,7 +339,9 @@ def execute(scn, ctx):
                           not any(k == d and r["label"] != pos_label for k, r in zip(keys, rows)) for d in distinct)
             # single-pass sampling of an empty stratum is outside the sampling quantifier (C11/C12)
             outside = eff_single and (npos == 0 or nneg == 0 or (st == "by_group" and lacking))
-        if not res["ok"] and outside:
+        if not res["ok"] and control_fault:
+            outcome = "failed-after-fault"  # fail-or-correct: the frame was checked above
+        elif not res["ok"] and outside:
             outcome = "outside-quantifier:" + type(res["value"]).__name__
         elif not res["ok"]:
             outcome = "raise:" + type(res["value"]).__name__
@@ -395,7 +419,8 @@ def execute(scn, ctx):
                         fin = np.isfinite(lo) & np.isfinite(up)
                         if np.any(lo[fin] > up[fin]):
                             bad("ci_ordered", f"lower > upper: lower={lo.tolist()} upper={up.tolist()}")
-                        if sampler is not None and len(sampler.outputs) == int(op["cfg"]["nb_samples"]) and not skip_norm and sampler.inputs:
+                        if sampler is not None and len(sampler.outputs) == int(op["cfg"]["nb_samples"]) and not skip_norm and sampler.inputs \
+                                and not control_fault:
                             # map the library's internal group labels to frame labels through the data itself
                             src_obj = sampler.inputs[0]
                             internal = group_multisets_from_object(src_obj) if isinstance(src_obj, L.GroupScores) else None
